@@ -343,6 +343,21 @@ def check_comprehension_shadow(run: Run, ctx: TermCtx, m, cls: ClassInfo, rule: 
         elif name in cls.class_assigns and isinstance(cls.class_assigns[name], ast.Name) and cls.class_assigns[name].id in cls.methods:
             handlers[k] = cls.methods[cls.class_assigns[name].id]
     anchor = cls.methods.get("visit_Name") or next(iter(cls.methods.values()))
+    # the frames are kept in a list the object owns (pushed with append, dropped with pop): any other representation
+    # (linked frames, tuples re-bound on every push) is outside what this rule can read
+    from ..lib import init_attr as _init_attr
+
+    try:
+        _init_attr(ctx, m, cls, lambda t_: t_ == ("list", ()), f"the frame stack of {cls.name}")
+        has_list_stack = True
+    except AnalysisError:
+        has_list_stack = False
+    try:
+        # a flat set of hidden names is readable - and is not a stack (leaving an inner scope un-hides an outer binder)
+        _init_attr(ctx, m, cls, lambda t_: t_ in (("app", ("global", "builtins.set"), (), ()), ("set", ())), f"the hidden-name set of {cls.name}")
+        has_list_stack = True
+    except AnalysisError:
+        pass
     for k in COMP_KINDS:
         run.check(k in handlers, rule, anchor, cls.node, f"{k} loop variables are treated as binders", f"{cls.name} has no handler for {k}: the loop variable of such a comprehension is replaced by a pending substitution of the same name (its Store-context target becomes an expression), and uses of the loop variable in the element refer to the substituted value instead of the loop's", "push a frame with the target names around the visit of the comprehension")
     for h in {id(v): v for v in handlers.values()}.values():
@@ -351,6 +366,8 @@ def check_comprehension_shadow(run: Run, ctx: TermCtx, m, cls: ClassInfo, rule: 
         selfp_ = ("param", h.pos_params[0])
         pushes = [e for e in evs if e.name == "append" and e.args and e.recv is not None and root_of(e.recv) == selfp_]  # the frame stack, not a local list
         pops = [e for e in evs if e.name == "pop" and e.recv is not None and root_of(e.recv) == selfp_]
+        if not pushes and not pops and not has_list_stack:
+            raise AnalysisError(f"{cls.name} keeps its frames in something other than a list it appends to and pops from (linked frames, re-bound tuples, ..): the binder discipline of {h.name} cannot be read")
         ok_t = False
         for c in pushes:
             t = c.args[0]
